@@ -170,7 +170,9 @@ fn fnv(b: &[u8]) -> u64 {
 pub struct Failure {
     pub key: String,
     pub desc: String,
-    /// the failure is "something did not happen before the deadline"
+    /// the failure is "something did not happen before the deadline" (or could, in principle, be
+    /// caused by another process on this machine): it counts only when it shows again with the
+    /// scenario run alone
     pub deadline: bool,
 }
 
@@ -182,6 +184,8 @@ pub struct TcpStats {
     pub end_eof: u64,
     pub end_reset: u64,
     pub refuse_granted_then_closed: u64,
+    pub refuse_end_eof: u64,
+    pub refuse_end_reset: u64,
     pub refuse_refused_reply: u64,
     pub refuse_closed_before_reply: u64,
 }
@@ -723,9 +727,9 @@ pub async fn run_tcp(mode: &Mode<'_>, case: &TcpCase, deadline_s: u64, uniq: u64
                 Some(e) => {
                     stats.refuse_granted_then_closed += 1;
                     if e == "eof" {
-                        stats.end_eof += 1;
+                        stats.refuse_end_eof += 1;
                     } else {
-                        stats.end_reset += 1;
+                        stats.refuse_end_reset += 1;
                     }
                 }
             }
@@ -737,7 +741,7 @@ pub async fn run_tcp(mode: &Mode<'_>, case: &TcpCase, deadline_s: u64, uniq: u64
         } else {
             let sp = spurious.load(Ordering::SeqCst);
             if sp > 0 {
-                push(format!("tcp.target.spurious-connection.{fam}"), format!("the target received {sp} connection(s) more than there are local connections"), false);
+                push(format!("tcp.target.spurious-connection.{fam}"), format!("the target received {sp} connection(s) more than there are local connections"), true);
             }
             evaluate_data(case, &cs, &ts, deadline_s, &mut stats, &mut push);
         }
@@ -910,13 +914,12 @@ fn evaluate_data(case: &TcpCase, cs: &[Side], ts: &[Side], deadline_s: u64, stat
             let (j, cl, d) = best_match(&c.rx, &t_pay);
             if cl != "equal" {
                 any = true;
-                let extra = if case.order == Order::ClientHalf && cl == "truncated" && c.rx.len() <= case.t2c / 2 {
-                    " (the target sends its second half only after it saw the client's half-close)"
-                } else {
-                    ""
-                };
+                // bytes the target wrote only after it had seen the client's half-close are missing:
+                // the reverse direction did not survive the half-close
+                let after = case.order == Order::ClientHalf && cl == "truncated" && c.rx.len() == case.t2c / 2 && case.t2c > 0;
+                let (sfx, extra) = if after { (".after-halfclose", " (exactly the part the target sent after it saw the client's half-close is missing)") } else { ("", "") };
                 push(
-                    format!("tcp.data.t2c.{cl}.{fam}.{ord}"),
+                    format!("tcp.data.t2c.{cl}.{fam}{sfx}"),
                     format!("local connection {i} vs the payload of target connection {j}: {d}{extra}; stream ended with {:?}; {progress}", c.rx_end),
                     false,
                 );
@@ -926,9 +929,11 @@ fn evaluate_data(case: &TcpCase, cs: &[Side], ts: &[Side], deadline_s: u64, stat
             let (i, cl, d) = best_match(&t.rx, &c_pay);
             if cl != "equal" {
                 any = true;
+                let after = case.order == Order::TargetHalf && cl == "truncated" && t.rx.len() == case.c2t / 2 && case.c2t > 0;
+                let (sfx, extra) = if after { (".after-halfclose", " (exactly the part the client sent after it saw the target's half-close is missing)") } else { ("", "") };
                 push(
-                    format!("tcp.data.c2t.{cl}.{fam}.{ord}"),
-                    format!("target connection {j} vs the payload of local connection {i}: {d}; stream ended with {:?}; {progress}", t.rx_end),
+                    format!("tcp.data.c2t.{cl}.{fam}{sfx}"),
+                    format!("target connection {j} vs the payload of local connection {i}: {d}{extra}; stream ended with {:?}; {progress}", t.rx_end),
                     false,
                 );
             }
